@@ -386,6 +386,80 @@ func c09Table(e *c09Env) {
 		}
 		one(q)
 	}
+	// 6. the same extension requests while the configured (advertised) extension list is reduced: what a
+	// server advertises is not what it understands; a peer can send the hidden requests all the same.
+	if err := SetSFTPExtensions("statvfs@openssh.com"); err == nil {
+		for _, dst := range []string{"g2", "d/x"} {
+			one(c09Req{p: vfPkt{Type: rfExtended, Ext: "posix-rename@openssh.com", Path: "f", Path2: dst}, label: "posix-rename/reduced-extension-list/" + dst})
+			one(c09Req{p: vfPkt{Type: rfExtended, Ext: "hardlink@openssh.com", Path: "f", Path2: dst}, label: "hardlink/reduced-extension-list/" + dst})
+		}
+		one(c09Req{p: vfPkt{Type: rfExtended, Ext: "statvfs@openssh.com", Path: "f"}, reading: true, label: "statvfs/reduced-extension-list"})
+		u.Count("requests_with_reduced_extension_list", 5)
+	}
+	SetSFTPExtensions("hardlink@openssh.com", "posix-rename@openssh.com", "statvfs@openssh.com")
+	c09Pipelined(e)
+}
+
+// c09Pipelined: refusals are answers like any other. A burst of modifying requests, interleaved with
+// reading ones, is written to the read-only server without waiting: every modifying request must be
+// refused with PERMISSION_DENIED under its own id, in order, the reading ones answered, the tree unchanged.
+func c09Pipelined(e *c09Env) {
+	u := e.u
+	s := e.ro
+	opts := vfSnapOpts{Mtime: true, DirMtime: true}
+	before := vfSnapshot(s.root, opts)
+	var burst []vfPkt
+	var modifying []bool
+	add := func(p vfPkt, mod bool) {
+		s.id++
+		p.ID = s.id
+		burst = append(burst, p)
+		modifying = append(modifying, mod)
+	}
+	P := func(rel string) string { return s.path(rel, e.relative) }
+	for i := 0; i < 12; i++ {
+		add(vfPkt{Type: rfMkdir, Path: P(fmt.Sprintf("pm%d", i))}, true)
+		add(vfPkt{Type: rfRemove, Path: P("f")}, true)
+		add(vfPkt{Type: rfStat, Path: P("f")}, false)
+		add(vfPkt{Type: rfRename, Path: P("f"), Path2: P(fmt.Sprintf("pr%d", i))}, true)
+		add(vfPkt{Type: rfSetstat, Path: P("f"), Attrs: vfAttrs{Flags: rfAttrPerm, Perm: 0o600}}, true)
+		add(vfPkt{Type: rfRmdir, Path: P("d")}, true)
+		add(vfPkt{Type: rfLstat, Path: P("d")}, false)
+		add(vfPkt{Type: rfSymlink, Path: "t", Path2: P(fmt.Sprintf("ps%d", i))}, true)
+	}
+	var stream []byte
+	for _, p := range burst {
+		stream = append(stream, p.Frame()...)
+	}
+	base := s.rs.R.Count()
+	sent := vfGo(func() { s.rs.R.Send(stream) })
+	w, dump := s.rs.R.WaitCount(base+len(burst), 120*time.Second)
+	<-sent
+	u.Count("pipelined_refusals", int64(len(burst)))
+	if w != vfDone {
+		if w == vfStuck {
+			u.Violation("pipelined-refusals-missing", fmt.Sprintf("%d requests pipelined to the read-only server, %d answered, process quiescent\n%s", len(burst), s.rs.R.Count()-base, vfTrim(dump, 2000)), nil)
+		} else {
+			u.Inconclusive("pipelined refusals: wall-clock cap")
+		}
+		return
+	}
+	for i, body := range s.rs.R.All()[base : base+len(burst)] {
+		p, err := vfParse(body, true)
+		req := burst[i]
+		switch {
+		case err != nil || p.ID != req.ID:
+			u.Violation("pipelined-refusal-id", fmt.Sprintf("reply %d to %s is %v (%v): not the answer to that request", i, req, p, err), nil)
+			return
+		case modifying[i] && !(p.Type == rfStatus && p.Code == rfPermDenied):
+			u.Violation("not-denied:pipelined/"+rfTypeName(req.Type), fmt.Sprintf("pipelined %s answered %s instead of PERMISSION_DENIED", req, p), nil)
+		case !modifying[i] && p.Type != rfAttrs:
+			u.Violation("reading-differs:pipelined/"+rfTypeName(req.Type), fmt.Sprintf("pipelined reading request %s answered %s", req, p), nil)
+		}
+	}
+	if d := before.Diff(vfSnapshot(s.root, opts)); len(d) > 0 {
+		u.Violation("modified:pipelined", fmt.Sprintf("read-only server changed the tree during a pipelined burst: %s", vfTrim(strings.Join(d, " | "), 600)), nil)
+	}
 }
 
 // c09Sequences: seeded request sequences without restoring in between (the read-only
